@@ -120,20 +120,26 @@ Table == <<
   Row("call", "meta", "call", <<P("function", "fnref"), P("args", "str")>>, 2, "pos")
 >>
 
+(* The pools are chosen to SEPARATE near-miss sibling implementations (a     *)
+(* global name wired to a similar but different function): strings with      *)
+(* non-ASCII upper- and lower-case letters, multi-code-point (combining) and *)
+(* astral characters, quoted and unquoted; numbers with units, negative and  *)
+(* fractional; colors in hsl / hwb notation and with alpha; lists with       *)
+(* brackets and every separator; maps; null; plus one ill-typed value.       *)
 Pool(t) ==
-  CASE t = "str"   -> {"s_abc", "s_empty", "u_abc", "s_uni", "x_num"}
-    [] t = "sub"   -> {"s_b", "s_empty", "s_zz", "u_c"}
-    [] t = "idx"   -> {"n_1", "n_2", "n_m1", "n_0", "n_9", "n_1h"}
-    [] t = "num"   -> {"n_0", "n_1", "n_m1", "n_1h", "n_2px", "n_50pct", "x_str"}
-    [] t = "numu"  -> {"n_0", "n_1", "n_m1", "n_1h", "n_30"}
-    [] t = "pct"   -> {"n_0pct", "n_50pct", "n_100pct", "n_25"}
-    [] t = "list"  -> {"l_abc", "l_comma", "l_empty", "l_br", "u_a", "m_ab"}
-    [] t = "any"   -> {"u_a", "u_b", "n_1", "null", "l_comma"}
-    [] t = "map"   -> {"m_ab", "m_empty", "m_nest", "x_num"}
-    [] t = "key"   -> {"u_a", "u_b", "u_zz", "n_1"}
+  CASE t = "str"   -> {"s_abc", "s_empty", "u_abc", "s_uni", "s_upper", "s_lower", "u_upper", "s_astral", "s_comb", "x_num"}
+    [] t = "sub"   -> {"s_b", "s_empty", "s_zz", "u_c", "s_uml", "s_emoji"}
+    [] t = "idx"   -> {"n_1", "n_2", "n_m1", "n_0", "n_9", "n_1h", "n_m2"}
+    [] t = "num"   -> {"n_0", "n_1", "n_m1", "n_1h", "n_2px", "n_50pct", "n_mfrac", "n_m2h5px", "n_deg", "x_str"}
+    [] t = "numu"  -> {"n_0", "n_1", "n_m1", "n_1h", "n_30", "n_mhalf"}
+    [] t = "pct"   -> {"n_0pct", "n_50pct", "n_100pct", "n_25", "n_33pct"}
+    [] t = "list"  -> {"l_abc", "l_comma", "l_empty", "l_br", "l_brcomma", "l_null", "u_a", "m_ab"}
+    [] t = "any"   -> {"u_a", "u_b", "n_1", "null", "l_comma", "s_upper", "m_ab"}
+    [] t = "map"   -> {"m_ab", "m_empty", "m_nest", "m_mixed", "x_num"}
+    [] t = "key"   -> {"u_a", "u_b", "u_zz", "n_1", "null", "s_qa"}
     [] t = "sep"   -> {"u_comma", "u_space", "u_auto", "u_slash", "x_bad"}
     [] t = "bool3" -> {"true", "false", "u_auto"}
-    [] t = "color" -> {"c_red", "c_hex", "c_rgba", "c_hsl", "x_strc"}
+    [] t = "color" -> {"c_red", "c_hex", "c_rgba", "c_hsl", "c_hsla", "c_hwb", "c_hexa", "x_strc"}
     [] t = "sel"   -> {"q_a", "q_ab", "q_list", "q_child", "u_c", "x_num"}
     [] t = "name"  -> {"q_red", "q_nope", "q_x", "q_fn", "x_num"}
     [] t = "feat"  -> {"q_at_error", "q_nope"}
@@ -183,7 +189,7 @@ ModuleSide == {c \o "_" \o s : c \in {"m", "cm"}, s \in {"pos", "named", "mixed"
 (*        format of its argument: it answers rgb(127.5, 127.5, 127.5) where     *)
 (*        color.grayscale answers hsl(120, 0%, 50%)                              *)
 DevScope(d, r, args) ==
-  CASE d = "global_grayscale_drops_hsl" -> r.g = "grayscale" /\ Len(args) = 1 /\ args[1] \in {"c_hsl"}
+  CASE d = "global_grayscale_drops_hsl" -> r.g = "grayscale" /\ Len(args) = 1 /\ args[1] \in {"c_hsl", "c_hsla"}
     [] OTHER -> FALSE
 
 DevForms(d, r, args) ==
